@@ -250,6 +250,7 @@ func diffJSON(path string, a, b interface{}, out *[]string) {
 func checkC18(p *Prog, r *Result, tier string) {
 	r.Rule("C18.R1", "the format descriptor extracted from the current source (JSON keys and kinds of every persisted type, writer and reader side; index tuple layout; schema file name, default extension, compressed suffix, uuid pattern; file-name composition; object encoding = json.Marshal of the object handed unmodified to the writer; gzip iff compress) equals the descriptor frozen from the pinned release", 10)
 	r.Rule("C18.R2", "every artefact of a corpus written by the pinned release (4 configurations) conforms to the current descriptor: schema keys known to the reader, required keys present, index entries are [value, id] tuples whose value matches the field's cast, one file per indexed uuid named <uuid><extension>[<compressed suffix>], object files are (gzip-compressed iff compress) plain JSON objects, directory named after the struct type", 20)
+	r.Rule("C18.R4", "file discovery inverts the namer (finite evaluation over the name shapes the namer can produce: extensions with one or several dots, with and without the compressed suffix): the function that splits a directory entry returns exactly the uuid part, and the temporary name used by the atomic writer is not taken for an object file", 5)
 	r.Rule("C18.R3", "writer/reader agreement inside the current build (shared with C04.R3)", 4)
 	r.NotDecided = []string{"that legacy data decodes to the same VALUES and searches identically (would need execution)", "the snake-case conversion of type names under LowercaseNames (value computation)"}
 	goldenPath := filepath.Join(verifDir, "golden", "format.json")
@@ -290,6 +291,7 @@ func checkC18(p *Prog, r *Result, tier string) {
 			}
 		}
 	}
+	checkDiscovery(p, r, "C18.R4", "C18.R4")
 	checkCorpus(p, r, "C18.R2", cur)
 	checkCodecSiblings(p, r, "C18.R3")
 }
@@ -706,6 +708,39 @@ func checkC13(p *Prog, r *Result, tier string) {
 		}
 	}
 
+	// R3b: the element list of an iterator is written only by its constructor and by the search's filler; the
+	// collector must not truncate or re-slice it (the limit counts objects in the CHOSEN order)
+	if itn != nil {
+		var fl *types.Var
+		s := structOf(itn)
+		for i := 0; i < s.NumFields(); i++ {
+			if sl, ok := s.Field(i).Type().Underlying().(*types.Slice); ok {
+				if b, ok := sl.Elem().Underlying().(*types.Basic); ok && b.Info()&types.IsString != 0 {
+					fl = s.Field(i)
+				}
+			}
+		}
+		allowed := map[string]bool{"newIterator": true, "(*Search).iterator": true}
+		for _, fn := range p.Funcs {
+			for _, b := range fn.Blocks {
+				for _, in := range b.Instrs {
+					if st, ok := in.(*ssa.Store); ok {
+						if n, f, base := fieldOf(st.Addr); n == itn && f == fl {
+							if _, isAlloc := base.(*ssa.Alloc); isAlloc {
+								continue // composite literal in a constructor
+							}
+							if allowed[FuncName(fn)] {
+								r.Report("C13.R3", FuncName(fn), "iterator element list written by constructor/filler only", Discharged, "", p.Pos(in.Pos()), nil, true)
+							} else {
+								r.Report("C13.R3", FuncName(fn), "iterator element list written by constructor/filler only", Violated, "the iterator's element list is modified after it was filled: truncating it before the order is chosen makes Reverse+Limit return the wrong end of the result", p.Pos(in.Pos()), nil, true)
+							}
+						}
+					}
+				}
+			}
+		}
+	}
+
 	// R4
 	if one := p.FuncByName("Search.one"); one != nil {
 		col := p.FuncByName("Search.collect")
@@ -820,3 +855,99 @@ func checkC13(p *Prog, r *Result, tier string) {
 }
 
 func init() { register("C13", checkC13) }
+
+// checkDiscovery: finite evaluation of the directory-entry splitter and of the temporary-name function.
+func checkDiscovery(p *Prog, r *Result, rule, tmpRule string) {
+	split := p.FuncByName("uuidExt")
+	if split == nil {
+		r.Report(rule, "uuidExt", "discovery", Undecided, "the function that splits a directory entry into uuid and extension was not found", "", nil, false)
+		return
+	}
+	const U = "0f1e2d3c-4b5a-6978-8796-a5b4c3d2e1f0"
+	pat := ""
+	if init := p.SPkg.Func("init"); init != nil {
+		for _, b := range init.Blocks {
+			for _, in := range b.Instrs {
+				if call, ok := in.(*ssa.Call); ok && classifyExternal(call.Call.StaticCallee()) == xRegexpCompile {
+					if s, ok := constString(call.Call.Args[0]); ok {
+						pat = s
+					}
+				}
+			}
+		}
+	}
+	re, err := regexp.Compile(pat)
+	if err != nil || pat == "" {
+		r.Report(rule, "uuid pattern", "discovery", Undecided, "uuid pattern not found or not compilable", "", nil, false)
+		return
+	}
+	suffix := ""
+	if gv, ok := p.SPkg.Members["compressedExtension"].(*ssa.Global); ok {
+		suffix = globalStringInit(p, gv)
+	}
+	evalSplit := func(name string) (string, string) {
+		env := &EvalEnv{P: p, CallHook: stdlibStringHook}
+		res, out := env.Eval(split, []AV{avS(name)}, 0)
+		r.Evaluations++
+		if out != "return" || len(res) < 1 || res[0].K != avStr {
+			return "", "finite evaluation failed on " + name + ": " + out + " " + env.Why
+		}
+		return res[0].S, ""
+	}
+	for _, ext := range []string{".json", ".obj", ".doc.json"} {
+		for _, sfx := range []string{"", suffix} {
+			name := U + ext + sfx
+			got, why := evalSplit(name)
+			construct := "entry <uuid>" + ext + sfx + " yields the uuid"
+			switch {
+			case why != "":
+				r.Report(rule, FuncName(split), construct, Undecided, why, p.Pos(split.Pos()), nil, true)
+			case got == U && re.MatchString(got):
+				r.Report(rule, FuncName(split), construct, Discharged, "", p.Pos(split.Pos()), nil, true)
+			default:
+				r.Report(rule, FuncName(split), construct, Violated, fmt.Sprintf("the object file %q is split into uuid part %q: it is not recognised as an object file, so the integrity control reports every such object as missing and Repair would drop it", name, got), p.Pos(split.Pos()), nil, true)
+			}
+		}
+	}
+	// entries that are not object files
+	for _, name := range []string{"schema.json", "README", ".tmp-" + U + ".json"} {
+		got, why := evalSplit(name)
+		construct := "entry " + strings.Replace(name, U, "<uuid>", 1) + " is not taken for an object"
+		switch {
+		case why != "":
+			r.Report(rule, FuncName(split), construct, Undecided, why, p.Pos(split.Pos()), nil, true)
+		case !re.MatchString(got):
+			r.Report(rule, FuncName(split), construct, Discharged, "", p.Pos(split.Pos()), nil, true)
+		default:
+			r.Report(rule, FuncName(split), construct, Violated, fmt.Sprintf("the entry %q is taken for the object %q", name, got), p.Pos(split.Pos()), nil, true)
+		}
+	}
+	// the temporary name of the atomic writer
+	if tf := p.FuncByName("tmpFilename"); tf != nil {
+		for _, ext := range []string{".json", ".json" + suffix} {
+			final := "/db/main.T/" + U + ext
+			env := &EvalEnv{P: p, CallHook: stdlibStringHook}
+			res, out := env.Eval(tf, []AV{avS(final)}, 0)
+			r.Evaluations++
+			construct := "temporary name of <uuid>" + ext + " is not taken for an object and lives in the same directory"
+			if out != "return" || len(res) != 1 || res[0].K != avStr {
+				r.Report(tmpRule, FuncName(tf), construct, Undecided, "finite evaluation failed: "+out+" "+env.Why, p.Pos(tf.Pos()), nil, true)
+				continue
+			}
+			tmp := res[0].S
+			got, why := evalSplit(filepath.Base(tmp))
+			switch {
+			case why != "":
+				r.Report(tmpRule, FuncName(tf), construct, Undecided, why, p.Pos(tf.Pos()), nil, true)
+			case filepath.Dir(tmp) != filepath.Dir(final):
+				r.Report(tmpRule, FuncName(tf), construct, Violated, fmt.Sprintf("the temporary file %q is not in the directory of %q: the rename would not be atomic", tmp, final), p.Pos(tf.Pos()), nil, true)
+			case tmp == final:
+				r.Report(tmpRule, FuncName(tf), construct, Violated, "the temporary name equals the final name", p.Pos(tf.Pos()), nil, true)
+			case re.MatchString(got):
+				r.Report(tmpRule, FuncName(tf), construct, Violated, fmt.Sprintf("a leftover temporary file %q (crash before the rename) is taken for the stored object %q by the integrity control and by Repair, which then fails reading the missing object file", filepath.Base(tmp), got), p.Pos(tf.Pos()), nil, true)
+			default:
+				r.Report(tmpRule, FuncName(tf), construct, Discharged, filepath.Base(tmp), p.Pos(tf.Pos()), nil, true)
+			}
+		}
+	}
+}
